@@ -411,10 +411,10 @@ MODEL_RULE = ("A: every history of <= MaxLen calls of AddBasicElement / SetBasic
               "non-trivial = history of >= 2 calls. ")
 
 
-def model_stage(ctx, props):
+def model_stage(ctx, props, presets=("", "s", "l", "f")):
     b = vcore.build()
     h = hbin(b, "h_model")
-    for pr in ("", "s", "l", "f"):
+    for pr in presets:
         cfg = "Gen_Model_%s%s.cfg" % ("q" if ctx.quick else "t", pr)
         ctx.constants[cfg] = open(os.path.join(vcore.TLA, cfg)).read().split("SPECIFICATION")[0].split()
         ctx.replay("Gen_Model.tla", cfg, h, ["--props", ",".join(props)], tag=cfg[:-4], timeout=3400, xss="64m", xmx="12g")
@@ -438,7 +438,13 @@ def plan_C10(ctx):
     ctx.assumptions = ["known findings K2 (cyclic term references) and K3 (non-contiguous interpretation keys) are reported as KNOWN-FINDING"]
     schema_plan(ctx, ["C10"], ["9", "7b", "8"])
     ctx.rule = SCHEMA_RULE + " Models: " + MODEL_RULE
-    model_stage(ctx, ["C10"])
+    model_stage(ctx, ["C10"], presets=("", "s"))
+    # values of any typification are stored in the document in the compact encoding: its round trip (Gen_C16's typifications x values)
+    # is the value part of "save / load is lossless"
+    ctx.rule += (" Values: every (typification, value) pair of Gen_C16 must survive the compact encoding the document stores values in "
+                 "(SDCompact::FromSData / Unpack).")
+    cfg = "Gen_C16_%s.cfg" % ("q" if ctx.quick else "t")
+    ctx.replay("Gen_C16.tla", cfg, hbin(vcore.build(), "h_sdcompact"), ["--as", "C10"], tag="values-" + cfg[:-4], timeout=3400, xss="64m")
 
 
 def save_trace(ctx, trace, prefix, tag=""):
